@@ -9,6 +9,8 @@
 let tb : (z * bent) list ref = ref []
 let td : (z * z list) list ref = ref []
 let fuel = nat_of_int 200000
+let bigfuel = nat_of_int 400000
+let smallfuel = nat_of_int 3000
 let tables () = { tB = List.rev !tb; tD = List.rev !td }
 let kind_of_int = function 0 -> UNum | 1 -> UCode | 2 -> UFlag | _ -> UStr
 let err_s = function OutOfFuel -> "OutOfFuel" | Reject -> "Reject" | TypeErr -> "TypeErr" | NotCompressible -> "NotCompressible"
@@ -82,6 +84,15 @@ let handle line =
          | Ok fl -> List.iter (fun (f, d) -> Buffer.add_string buf (" " ^ item f d)) fl
          | Err e -> Buffer.add_string buf (" layout-err-" ^ err_s e)) subsets;
        print_string (Buffer.contents buf); print_newline ())
+  | "SEXP" :: n :: rest ->
+    let (ds, more) = take (int_of_string n) rest in
+    let tmpl = List.map z_of_string ds in
+    let fl = (match more with "big" :: _ -> bigfuel | _ -> smallfuel) in
+    if not (well_nested tmpl) then print_string "SEXP err Reject wf=false accepts=false\n" else
+    let acc = accepts fl (tables ()) tmpl in
+    (match sexpand fl (tables ()) tmpl with
+     | Ok l -> Printf.printf "SEXP ok wf=%b accepts=%b %s\n" (well_nested tmpl) acc (String.concat " " (List.map (fun d -> string_of_int (int_of_z d)) l))
+     | Err e -> Printf.printf "SEXP err %s wf=%b\n" (err_s e) (well_nested tmpl))
   | "LAY" :: ed :: n :: rest ->
     let (ds, toks) = take (int_of_string n) rest in
     let tmpl = List.map z_of_string ds in
